@@ -104,6 +104,28 @@ def defaulting_dict_cases():
     return out
 
 
+def sentinel_value_cases():
+    """the library's own sentinels as DATA: `Nil` (niltype), `...`, NotImplemented as the value of a declared key / element —
+    present keys are present whatever they hold"""
+    from niltype import Nil
+    out = []
+    for sv in (Nil, ..., NotImplemented, None):
+        for mk in (lambda: (schema.dict({"meta": schema.any}), {"meta": sv}),
+                   lambda: (schema.dict({"meta": schema.str, "n": schema.int}), {"meta": sv, "n": 1}),
+                   lambda: (schema.dict({"meta": schema.none, optional("o"): schema.int}), {"meta": sv, "o": sv}),
+                   lambda: (schema.dict({"a": schema.dict({"meta": schema.int})}), {"a": {"meta": sv}}),
+                   lambda: (schema.dict({"meta": schema.int, ...: ...}), {"meta": sv, "x": sv}),
+                   lambda: (schema.list([schema.int, schema.any]), [1, sv]),
+                   lambda: (schema.list(schema.dict({"meta": schema.any})), [{"meta": sv}]),
+                   lambda: (schema.any(schema.dict({"meta": schema.int}), schema.str), {"meta": sv})):
+            try:
+                s, v = mk()
+            except Exception:  # noqa: BLE001
+                continue
+            out.append(ValCase(s, v, "sentinel-data"))
+    return out
+
+
 def touchy_cases():
     """(schema, value) cases whose nested validation raises from user code. The real validate may raise (not this
     family's business); whatever errors it RETURNS must still be true and located."""
